@@ -276,7 +276,22 @@ func (r *queryRun) step(st h.Step) map[string]interface{} {
 	// (or the loop being back at the gate: its iteration is over, possibly a silent one), then until the loop
 	// is observably quiescent: back at the gate, blocked in its select, blocked in Send, or finished.
 	if w > 0 {
-		poll(2*time.Second, func() bool { r.drainGate(); return r.qframes() >= w || r.atGate })
+		// the loop is back at the gate as soon as the client has READ the record's bytes, i.e. possibly a moment
+		// before the client has decoded the frame: after the gate token the frame gets 50 ms more
+		var tokenAt time.Time
+		poll(2*time.Second, func() bool {
+			r.drainGate()
+			if r.qframes() >= w {
+				return true
+			}
+			if r.atGate {
+				if tokenAt.IsZero() {
+					tokenAt = time.Now()
+				}
+				return time.Since(tokenAt) > 50*time.Millisecond
+			}
+			return false
+		})
 	}
 	if st.A() != "query" && st.A() != "stall" {
 		poll(2*time.Second, func() bool {
